@@ -1062,6 +1062,13 @@ def oracle_assets(h):
                         fails.append(("C06", "a %s published by peer %d never reached peer %d" % (kind, pub, p), {"uuid": uuid[:8]}))
                     elif got != want:
                         fails.append(("C06", "peer %d holds a %s whose content differs from what peer %d last published under that uuid" % (p, kind, pub), {"uuid": uuid[:8]}))
+        if e["ev"] == "slow_endpoint" and e.get("half_sent") and e.get("gets", 0) >= 2 and all(e.get("new_applied", [])):
+            # the uuid was announced twice; the first download got its headers and half of its body before the second
+            # announcement and finished after the second download had been applied
+            for k, f in enumerate(e.get("final", [])):
+                if f != "new":
+                    fails.append(("C06", "peer %d ends with the answer to an outdated request (%s) after the answer to the newer request "
+                                  "of the same uuid had been applied: a slow first download overwrote it" % (k + 1, f), {"uuid": e["uuid"][:8]}))
     return fails
 
 
